@@ -596,28 +596,42 @@ class Unit:
         call = o.fields.get('call')
         if call is None:
             raise ExtractError('%s: outline %s has no call' % (key, o.name))
-        holes = re.findall(r'\$(\w+)', pat)
+        holes = re.findall(r'\$\$?(\w+)', pat)
         if holes:
             # E7 with operand holes: `$x` in `expr:` matches one operand (an identifier or field path); the same `$x` in
             # `call:` is replaced by the matched text, and the helper body is the idiom with the operands renamed to the
             # helper's parameters `x`.  The assumed `ensures` is then a statement about the idiom for ARBITRARY operands, and
             # exchanging/renaming operands in the source stays decidable (it changes the call, not the assumed helper).
+            # `$$x` matches an operand EXPRESSION: optional `&`, a path, optionally one call with plain arguments, optionally `?`
+            # (`&encode_group_commitments(signing_commitments)?`); the matched text stays in the caller (so does its `?`).
             if len(set(holes)) != len(holes):
                 raise ExtractError('%s: outline %s: a hole may occur only once in expr' % (key, o.name))
             rx = re.escape(pat)
             for h in sorted(holes, key=len, reverse=True):
-                rx = rx.replace(re.escape('$' + h), r'(?P<%s>[A-Za-z_][\w.]*)' % h, 1)
+                if ('$$' + h) in pat:
+                    rx = rx.replace(re.escape('$$' + h), r'(?P<%s>&?[A-Za-z_][\w.:]*(?:\([\w.:,&*]*\))?\??)' % h, 1)
+                else:
+                    rx = rx.replace(re.escape('$' + h), r'(?P<%s>[A-Za-z_][\w.]*)' % h, 1)
             m = re.search(rx, flat)
             if not m or (idx[m.start()] > 0 and (t[idx[m.start()] - 1].isalnum() or t[idx[m.start()] - 1] in '_.')):
+                if o.fields.get('optional'):
+                    # `optional: yes`: the idiom is absent, nothing is outlined and nothing assumed; the body is verified as it stands
+                    o.skipped = True
+                    self.rule('E7.optional_outline_absent')
+                    return t
                 raise ExtractError('%s: lost anchor: outlined expression `%s` not found' % (key, norm_ws(expr)[:80]))
             p, plen = m.start(), m.end() - m.start()
             for h in sorted(holes, key=len, reverse=True):
-                call = call.replace('$' + h, m.group(h))
-            o.body = re.sub(r'\$(\w+)', r'\1', expr)
+                call = call.replace('$$' + h, m.group(h)).replace('$' + h, m.group(h))
+            o.body = re.sub(r'\$\$?(\w+)', r'\1', expr)
             self.rule('E7.outlined_idiom_operand_holes')
         else:
             p, plen = flat.find(pat), len(pat)
             if p < 0:
+                if o.fields.get('optional'):
+                    o.skipped = True
+                    self.rule('E7.optional_outline_absent')
+                    return t
                 raise ExtractError('%s: lost anchor: outlined expression `%s` not found' % (key, norm_ws(expr)[:80]))
         a, b = idx[p], idx[p + plen - 1] + 1
         self.rule('E7.outlined_idiom')
@@ -628,6 +642,8 @@ class Unit:
     def outline_items(self, c):
         out = []
         for o in c.outlines:
+            if getattr(o, 'skipped', False):
+                continue
             sig = o.fields.get('sig', '').strip()
             req = o.fields.get('requires')
             ens = o.fields.get('ensures')
@@ -806,6 +822,10 @@ class Unit:
         n = len(t)
         while i < n:
             ch = t[i]
+            if t.startswith('/*@', i):
+                # clause markers injected by earlier passes carry the function key, which may contain `for` (`Trait for Type`)
+                i = t.index('*/', i) + 2
+                continue
             if ch in '"\'br':
                 e = skip_literal(t, i)
                 if e is not None:
